@@ -399,7 +399,8 @@ func dnsslNames(c *Ctx, rule string) {
 	if f := c.P.Func("internal/config", "parseDNSSL"); f != nil {
 		// the advertised search list is the configured one, name by name and in order, each name in the
 		// form it has after a wire round trip (trailing dot removed, IDNA labels in Unicode: see R-C12-5)
-		wireForm := func(e *an.Expr) bool {
+		wireForm := isWireFormName
+		_ = func(e *an.Expr) bool {
 			b, idx := stripExtract(e)
 			if idx != 0 || b.Op != an.OpCall || b.Fn == nil || b.Fn.String() != "golang.org/x/net/idna.ToUnicode" || len(b.Args) != 1 {
 				return false
@@ -782,4 +783,19 @@ func c01Pref64Lifetime(c *Ctx) {
 			"3 × maxInterval, rounded up to a multiple of 8 s when (· % 8s) > 0; 65528 s at the cap", "PREF64 lifetime is not 3 × MaxRtrAdvInterval rounded up to a multiple of 8 s")
 	}
 	c.R.Check(n == 3, "R-C01-3", fn+":lifetime-paths", fn, c.pos(f.Pos()), fmt.Sprintf("%d path(s) with a lifetime", n), "3 (capped, rounded, exact)", "the lifetime computation has an unexpected shape")
+}
+
+// isWireFormName matches idna.ToUnicode(strings.TrimSuffix(raw.DomainNames[i], "."))#0: a configured DNSSL
+// name in the form it has after a wire round trip.
+func isWireFormName(e *an.Expr) bool {
+	b, idx := stripExtract(e)
+	if idx != 0 || b.Op != an.OpCall || b.Fn == nil || b.Fn.String() != "golang.org/x/net/idna.ToUnicode" || len(b.Args) != 1 {
+		return false
+	}
+	t := b.Args[0]
+	if t.Op != an.OpCall || t.Fn == nil || t.Fn.String() != "strings.TrimSuffix" || len(t.Args) != 2 || !t.Args[1].IsConst(`"."`) {
+		return false
+	}
+	el := t.Args[0]
+	return el.Op == an.OpElem && len(el.Args) == 2 && el.Args[0].IsField("DomainNames") && el.Args[0].Args[0].Op == an.OpParam && el.Args[1].Contains(func(x *an.Expr) bool { return x.Op == an.OpLoop })
 }
